@@ -148,14 +148,18 @@ pub fn build_subject(seed: u64, case: u64, tag: &str) -> Subject {
     let raw = w.raw(false);
     let bands: Vec<u32> = raw.bands.keys().copied().collect();
     let complete: BTreeSet<u32> = raw.complete_bands().into_iter().collect();
+    // what restoring each band gives before any damage (for an incomplete band: the stitched
+    // tree, minus entries that have no directory above them in the listing)
     let mut expected = BTreeMap::new();
     for b in &bands {
+        let dest = w.sc.fresh("pre");
+        let out = restore_outcome(&w.arch, *b, &dest);
+        assert!(out.ok(), "pre-damage restore of b{b:04} failed: {}", out.describe());
         if complete.contains(b) {
-            expected.insert(*b, w.sources[b].clone());
-        } else {
-            let model = stitch_model(&raw, *b);
-            expected.insert(*b, crate::oracle::stitched_expected(&model, &w.sources));
+            assert!(out.errors.is_empty(), "pre-damage restore of b{b:04}: {}", out.describe());
         }
+        expected.insert(*b, crate::tree::snapshot(&dest).expect("snapshot"));
+        crate::scratch::rm(&dest);
     }
     Subject { world: w, opts, complete, bands, desc, expected }
 }
